@@ -742,13 +742,16 @@ def _from_str(ctx: Ctx) -> None:
         and kw.value.attr == "dtype" and isinstance(kw.value.value, ast.Name)
         and kw.value.value.id in ret_names for kw in c.keywords)
         for c in ast.walk(fs.node))
-    sh = any(isinstance(c, ast.Call) and isinstance(c.func, ast.Attribute)
-             and c.func.attr == "reshape" and len(c.args) == 1
-             and isinstance(c.args[0], ast.Attribute)
-             and c.args[0].attr == "shape"
-             and isinstance(c.args[0].value, ast.Name)
-             and c.args[0].value.id in ret_names
-             for c in ast.walk(fs.node))
+    def _shape_of_ret(e: ast.expr) -> bool:
+        e = inline_locals(fs.node, e, keep=ret_names)
+        return isinstance(e, ast.Attribute) and e.attr == "shape" and \
+            isinstance(e.value, ast.Name) and e.value.id in ret_names
+    sh = any(isinstance(c, ast.Call) and (
+        (isinstance(c.func, ast.Attribute) and c.func.attr == "reshape"
+         and len(c.args) == 1 and _shape_of_ret(c.args[0]))
+        or (ast.unparse(c.func) == "np.reshape" and len(c.args) == 2
+            and _shape_of_ret(c.args[1])))
+        for c in ast.walk(fs.node))
     cr = any(isinstance(n, (ast.Assign, ast.AnnAssign)) and isinstance(
         n.value, ast.Call) and isinstance(n.value.func, ast.Attribute)
         and n.value.func.attr == "create" and isinstance(
